@@ -1,6 +1,7 @@
 """C18 — types, domains, schemas, databases, tablespaces yield one exact entity each (E1, reference model)."""
 import itertools
 import json
+import re
 
 from ..util import diff, norm, run_ddl, short, is_table, snippet as _snip
 
@@ -110,7 +111,21 @@ def D():
 
 
 def bounds(tier):
-    return {"declarations": len(D()), "contexts": 3, "name_forms": 3, "schema_forms": 3}
+    return {"declarations": len(D()), "contexts": 5, "name_forms": len(NAMES), "schema_forms": 3, "representatives": len(reps()),
+            "sequences": "all ordered pairs of representatives" + ("; every declaration x every representative in both orders; all triples of representatives" if tier == "thorough" else "")}
+
+
+def reps():
+    """one representative declaration per (kind, option shape): the second member of cross-kind pairs / the alphabet of triples"""
+    seen, out = set(), []
+    for i, d in enumerate(D()):
+        shape = (d["kind"], re.sub(r"\S+\.", "", d["ddl"].replace(d.get("use") or "\0", "N")).count(","), "OR REPLACE" in d["ddl"],
+                 "IF NOT" in d["ddl"], "COMMENT" in d["ddl"], "AUTHORIZATION" in d["ddl"], "TEMPORARY" in d["ddl"], "FILE" in d["ddl"],
+                 bool(d.get("tbody")), d.get("noas"), d.get("unsized"))
+        if shape not in seen and not features({"d": i}):
+            seen.add(shape)
+            out.append(i)
+    return out
 
 
 def gen_cases(tier):
@@ -122,6 +137,18 @@ def gen_cases(tier):
         cases.append({"d": i, "ctx": "pair"})
         if d.get("use") and not any(d["use"] == k or d["use"].endswith("." + k) for k in KWNAMES):
             cases.append({"d": i, "ctx": "used"})
+    R = reps()
+    # declarations of DIFFERENT kinds side by side: the script yields the stand-alone entities, in order
+    for a in R:
+        for b in R:
+            cases.append({"ctx": "seq", "ds": [a, b]})
+    if tier == "thorough":
+        for i in range(len(D())):
+            for r in R:
+                cases.append({"ctx": "seq", "ds": [i, r]})
+                cases.append({"ctx": "seq", "ds": [r, i]})
+        for tri in itertools.product(R, repeat=3):
+            cases.append({"ctx": "seq", "ds": list(tri)})
     return cases
 
 
@@ -138,6 +165,8 @@ def partner(i):
 
 
 def build(case):
+    if case["ctx"] == "seq":
+        return "\n".join(D()[i]["ddl"] for i in case["ds"])
     d = D()[case["d"]]
     if case["ctx"] == "alone":
         return d["ddl"]
@@ -151,6 +180,8 @@ def build(case):
 
 
 def features(case):
+    if case.get("ctx") == "seq":
+        return sorted({f for i in case["ds"] for f in features({"d": i})})
     d = D()[case["d"]]
     f = []
     if d.get("noas"):
@@ -162,7 +193,26 @@ def features(case):
     return f
 
 
+_SOLO = {}
+
+
+def solo_of(i):
+    if i not in _SOLO:
+        _SOLO[i] = run_ddl(D()[i]["ddl"])
+    return _SOLO[i]
+
+
 def evaluate(case):
+    if case["ctx"] == "seq":
+        ss = [solo_of(i) for i in case["ds"]]
+        if any(x[0] != "ok" or len(x[1]) != 1 for x in ss):
+            return {"diffs": [], "skipped": True}
+        r = run_ddl(build(case))
+        if r[0] != "ok":
+            return {"diffs": [diff("run", "raises:" + r[1], "result", r[2])], "outcome": "exc"}
+        want = [x[1][0] for x in ss]
+        D_ = [] if r[1] == want else [diff("declarations of several kinds in one script", "sequence-differs-from-stand-alone", short(want, 400), short(r[1], 400))]
+        return {"diffs": D_, "nontrivial": True, "outcome": "seq:%d" % len(case["ds"])}
     d = D()[case["d"]]
     ddl = build(case)
     r = run_ddl(ddl)
@@ -219,6 +269,8 @@ def evaluate(case):
 
 
 def describe(case):
+    if case["ctx"] == "seq":
+        return {"ddl": build(case), "expected": "the stand-alone entities of the declarations, in order"}
     return {"ddl": build(case), "expected_entity": D()[case["d"]]["exp"]}
 
 
